@@ -27,7 +27,7 @@ REQUIRED = ["at_most_once_atomic", "at_most_one_success_atomic", "at_most_one_su
             "dead_never_honoured", "dead_after_ttl", "code_dead_after_failed_attempt",
             "two_success_witness", "two_success_witness_mark", "at_most_once_fails_without_atomicity",
             "at_most_once_partial", "mark_separated_partial",
-            "nonce_covers_window", "replay_window_empty_today", "s2s_no_replay_inside_window", "program_matches_api_calls",
+            "store_fault_fails_closed", "nonce_covers_window", "replay_window_empty_today", "s2s_no_replay_inside_window", "program_matches_api_calls",
             "fact_consumer_calls", "fact_store_keys", "fact_store_users", "fact_prefixes_distinct", "fact_gad_atomic_today",
             "fact_mark_atomic_today", "fact_session_store_shapes", "fact_ttls_positive", "two_success_witness_multinode"]
 
@@ -62,13 +62,17 @@ def oracle(op, line, facts):
                     bad.append((f"C05:{k}:{where}:two-requests-honoured", f"threads {i} and {j} both succeeded with secret {a['id']}"))
             elif both and abs(tlast.get(i, 0) - tlast.get(j, 0)) < ttl(k):
                 bad.append((f"C05:{k}:{where}:two-requests-honoured", f"threads {i} and {j} both accepted {a['id']} within the nonce TTL"))
+    # store faults fail closed: a request whose own store call failed is never honoured
+    for i, a in enumerate(threads):
+        if a.get("fail") and i < len(outs) and outs[i] == "ok":
+            bad.append((f"C05:{a['kind']}:{where}:honoured-despite-store-failure", f"thread {i} was honoured although its underlying {a['fail']} failed"))
     for i, a in enumerate(threads):
         if a["kind"] not in BURN or i >= len(outs) or outs[i] != "ok":
             continue
         # dead after any finished attempt on the same secret (authorization code: also failed attempts), dead after the TTL
         for j, b in enumerate(threads):
             if j != i and b["kind"] == a["kind"] and b["id"] == a["id"] and j in last and i in first and last[j] < first[i] \
-                    and j < len(outs) and not outs[j].startswith("stuck") and (a["kind"] in ("code", "preauth") or outs[j] in ("ok", "mismatch", "post-check")):
+                    and j < len(outs) and not outs[j].startswith("stuck") and b.get("fail") != "del" and (a["kind"] == "code" or outs[j] in ("ok", "mismatch", "post-check")):
                 bad.append((f"C05:{a['kind']}:{where}:honoured-after-earlier-attempt", f"thread {i} succeeded after thread {j} ({outs[j]}) had finished"))
         if tfirst.get(i, 0) > ttl(a["kind"]):
             bad.append((f"C05:{a['kind']}:{where}:honoured-after-ttl", f"thread {i} succeeded at t={tfirst[i]} > ttl {ttl(a['kind'])}"))
